@@ -29,7 +29,7 @@ func runC13(r *Rec) {
 
 	// ---------- A. InflationPossible / AllocateTokens as functions of (snapshots, supply, time, properties)
 	r.Mark("inflation")
-	nA := 150
+	nA := 800
 	if r.Tier == "thorough" {
 		nA = 4000
 	}
@@ -112,7 +112,7 @@ func runC13(r *Rec) {
 
 	// ---------- A2. the inflation schedule over chains of blocks: AllocateTokens (BeginBlocker) + EndBlocker (snapshot roll-over)
 	r.Mark("inflation schedule")
-	nChains, nBlk := 6, 60
+	nChains, nBlk := 30, 70
 	if r.Tier == "thorough" {
 		nChains, nBlk = 80, 150
 	}
@@ -198,7 +198,7 @@ func runC13(r *Rec) {
 	r.Mark("ubi hardcap")
 	h := ubi.NewApplyUpsertUBIProposalHandler(w.app.UbiKeeper, gk, w.app.SpendingKeeper)
 	u64c := []uint64{0, 1, 2, 1000, 500000, 6000000, 7000000, 31556952, 2592000, 86400, 1 << 32, 584554049253, 584554049254, 584554049255, math.MaxUint64/31556952 - 1, math.MaxUint64 / 31556952, math.MaxUint64/31556952 + 1, 1 << 62, 1 << 63, math.MaxUint64 - 1, math.MaxUint64}
-	nB := 250
+	nB := 1500
 	if r.Tier == "thorough" {
 		nB = 6000
 	}
